@@ -14,7 +14,10 @@ RULE = (
     "C03's documents; each rendered with a plain layout and 4 random layouts "
     "(separators: empty where optional, spaces, tabs, LF, CRLF, CR, FF, VT, "
     "runs, /* */ comments with hostile bodies also adjacent to tokens, '#' "
-    "comments set off by white space for ISIS/default). distinct = (reader, "
+    "comments set off by white space for ISIS/default); plus every loadable "
+    "tests/data label split at the lexer's token boundaries and re-laid-out "
+    "(white-space gaps replaced by other white space / comment runs) 20 (quick) "
+    "or 400 (thorough) times. distinct = (reader, "
     "document seed, layout index); non-trivial = layout differs from plain. "
     "coverage.triples counts (token kind, separator class, token kind)"
 )
@@ -77,6 +80,81 @@ def case(rec, pvl, reader, key):
                       str(gt.same_tree(doc.tree, m2)))
 
 
+# --------------------------------------------------------------------------
+# corpus workload: every tests/data label that loads is split at the token
+# boundaries the lexer reports (trace proxy) and its white-space separators are
+# replaced by other non-empty runs of white space and comments
+# --------------------------------------------------------------------------
+def corpus_files(pvl):
+    import os
+    root = os.path.join(common.REPO, "tests", "data")
+    out = []
+    for dp, dn, fn in os.walk(root):
+        for f in sorted(fn):
+            p = os.path.join(dp, f)
+            try:
+                out.append((os.path.relpath(p, root), pvl.get_text_from(p)))
+            except Exception:
+                continue
+    return out
+
+
+def corpus_case(rec, pvl, name, text, rng, n_layouts):
+    from ..trace import traced_parser
+    from ..normalise import snapshot
+    holder = {}
+    st, base = load(pvl, "default", text, parser=traced_parser(pvl, "default", holder))
+    if st != "ok" or "-\n" in text or "-\r" in text or getattr(base, "errors", None):
+        # broken label, dash continuation, or missing values (their placeholders
+        # carry line numbers, which a new layout legitimately changes)
+        rec.count("corpus_label_not_used")
+        return
+    tr = holder["trace"]
+    doc = holder["text"]
+    toks = [(t, p) for t, p in tr.fresh if p is not None]
+    # keep only tokens that are found at their reported position
+    pieces, pos = [], 0
+    for t, p in toks:
+        if p < pos or doc[p:p + len(t)] != t:
+            rec.count("corpus_label_not_used")
+            return
+        pieces.append(("sep", doc[pos:p]))
+        pieces.append(("tok", t))
+        pos = p + len(t)
+    tail = doc[pos:]
+    base_snap = snapshot(base)
+    rec.count("corpus_labels_relaid")
+    for li in range(n_layouts):
+        out = []
+        changed = 0
+        for kind, s in pieces:
+            if kind == "tok" or s == "" or s.strip(" \t\r\n\f\v") != "":
+                out.append(s)           # tokens, empty gaps, gaps holding comments
+                continue
+            prev = out[-1] if out else ""
+            new = gt.gen_sep(rng, "default", False, "wild", None, None)
+            if new == "" or prev.endswith("-"):
+                new = s
+            if prev.endswith(("/", "*")) and new.startswith(("/", "*")):
+                new = " " + new
+            out.append(new)
+            changed += 1
+        new_text = "".join(out) + tail
+        rec.case(("corpus", name, li), changed > 0)
+        rec.count("corpus_gaps_replaced", changed)
+        st2, m2 = load(pvl, "default", new_text)
+        if st2 == "timeout":
+            rec.inconc(f"CPU budget exceeded on corpus label {name}")
+            continue
+        if st2 != "ok" or snapshot(m2) != base_snap:
+            rec.violation(CHECK, "default", "corpus-relayout-changes-result",
+                          {"effect": "load-fails" if st2 != "ok" else "module-differs"},
+                          {"file": name, "layout": li, "text": new_text[:1500]},
+                          f"{st2}: {str(m2)[:200]}")
+        else:
+            rec.count("corpus_layouts_agree")
+
+
 def shard(i, n, tier, seed, rec, hb):
     pvl = common.import_pvl()
     per = 1200 if tier == "quick" else 40000
@@ -84,6 +162,12 @@ def shard(i, n, tier, seed, rec, hb):
         for j in range(i, per, n):
             hb.beat()
             case(rec, pvl, reader, f"C04-{seed}-{reader}-{j}")
+    for k, (name, text) in enumerate(corpus_files(pvl)):
+        if k % n != i:
+            continue
+        hb.beat()
+        corpus_case(rec, pvl, name, text, random.Random(f"C04-corpus-{seed}-{name}"),
+                    20 if tier == "quick" else 400)
 
 
 def finish_kwargs(rec, tier):
@@ -91,7 +175,8 @@ def finish_kwargs(rec, tier):
                if k.startswith("triple[")}
     return dict(extra_cov={"distinct_triples": len(triples), "triples": triples},
                 required_counters=[f"layouts[{r}]" for r in gt.READERS]
-                + ["gaps_exercised"],
+                + ["gaps_exercised", "corpus_labels_relaid",
+                   "corpus_layouts_agree", "corpus_gaps_replaced"],
                 assumptions=["gap rules of DESIGN 3.3: white space optional "
                              "around = , ( ) { } ; before <units> and after a "
                              "closing quote; required after <units> and "
